@@ -1,7 +1,7 @@
 """C05 — the four operations are mutually consistent on the same operands."""
 from . import relprops, relrun
 LEVEL = 'proof'
-W = {'rect': 0.25, 'oct': 0.3, 'share': 0.15, 'lat': 0.1, 'gp': 0.15, 'self': 0.05, 'boxes': 0.1, 'straddle': 0.05, 'abut': 0.15, 'punch': 0.08}
+W = {'rect': 0.25, 'oct': 0.3, 'share': 0.15, 'lat': 0.1, 'gp': 0.15, 'self': 0.05, 'boxes': 0.1, 'straddle': 0.05, 'abut': 0.15, 'punch': 0.08, 'frameslab': 0.12}
 
 
 def run(rep, tier, seed):
